@@ -16,10 +16,11 @@ import warnings
 sys.path.insert(0, os.path.dirname(os.path.abspath(__file__)))
 import queries as Q      # noqa
 
-NAMES = ['a"b', "c\\d", "e f", "ü\\\"", "n", "n", 'q"', "\\"]
+NAMES = ['a"b', ('t"\\', 1), "c\\d", "e f", "ü\\\"", "n", "n", 'q"', "\\"]
 
 
 def esc_ref(s):
+    s = s if isinstance(s, str) else str(s)      # names need not be strings: the exporters escape str(value)
     return "".join(("\\" + ch) if ch in '"\\' else ch for ch in s)
 
 
@@ -121,12 +122,12 @@ def check_dot(cls, nodes, start, stopset, filtset, maxlevel, known, custom):
     def ident(n):
         if unique:
             return None
-        return "%s#%d" % (n.name, idx[id(n)]) if custom else n.name
+        return "%s#%d" % (n.name, idx[id(n)]) if custom else (n.name if isinstance(n.name, str) else str(n.name))
     nlines = body[:len(decl)]
     elines = body[len(decl):]
     ids = {}
     for n, line in zip(decl, nlines):
-        attr = (' [shape=box,k="%d"]' % idx[id(n)]) if custom else ((' [label="%s"]' % n.name) if unique else "")
+        attr = (' [shape=box,k="%d"]' % idx[id(n)]) if custom else ((' [label="%s"]' % (n.name,)) if unique else "")
         m = re.fullmatch(re.escape(ind) + QS + re.escape(attr) + ";", line)
         if not m:
             return "node line for %r malformed: %r" % (n.name, line)
